@@ -174,6 +174,7 @@ pub fn scenario(p: &GenParams) -> BoxedStrategy<Scenario> {
             sc.own_snapshots = (seed >> 50) % 4 == 0;
             // a third of the games sample their controller per tick: a stalled frame is resubmitted with other values
             sc.resubmit_varies = (seed >> 44) % 3 == 0;
+            sc.double_submit = (seed >> 40) % 4 == 0;
             // ops
             let mut outages = 0;
             let mut pauses = 0;
